@@ -128,7 +128,20 @@ class _FragGen:
         if o == "sum":
             return ["n", "Sum", [["t", [e(d + 1) for _ in range(r.randint(2, 3))]]]]
         if o == "prod":
-            return ["n", "Product", [["t", [e(d + 1) for _ in range(r.randint(2, 3))]]]]
+            fs = [e(d + 1) for _ in range(r.randint(2, 3))]
+            if r.random() < 0.15:
+                # a short-cut power of a division-like node as a factor
+                if k == "float":
+                    inner = ["n", "Quotient", [e(d + 1), e(d + 1)]]
+                else:
+                    saved, self.kind = self.kind, "int"
+                    try:
+                        inner = ["n", r.choice(["Remainder", "FloorDiv"]),
+                                 [e(d + 1), self.divisor(d + 1)]]
+                    finally:
+                        self.kind = saved
+                fs[r.randrange(len(fs))] = ["n", "Power", [inner, ["i", r.choice([1, 1, 2])]]]
+            return ["n", "Product", [["t", fs]]]
         if o == "sub":
             neg = ["n", "Product", [["t", [["i", -1] if k == "int" else r.choice(
                 [["i", -1], ["f", "-1.0"]])] + [e(d + 1) for _ in range(r.randint(1, 2))]]]]
